@@ -8,7 +8,7 @@ from concurrent.futures import ProcessPoolExecutor
 from harness import tlc, net
 from harness.ev import jsonable
 
-BASE = [0, 0o1, 0o2, 0o3, 0o11, 0o21, 0o12, 0o111, 0o211, 0o1111, 0o2111]
+BASE = [0, 0o1, 0o2, 0o3, 0o4, 0o11, 0o21, 0o12, 0o14, 0o111, 0o211, 0o1111, 0o2111]   # 0o14: relays without any delay (address % 4 = 0, level 2)
 
 
 def run_chunk(args):
@@ -38,7 +38,7 @@ def build(chk):
     rng = random.Random(chk.seed + 14)
     chunks = []
     variants = [("no relays", {}),
-                ("relays on levels 1-2", {a: {"multicast_relay": True} for a in (0o1, 0o2, 0o11, 0o21)}),
+                ("relays on levels 1-2", {a: {"multicast_relay": True} for a in (0o1, 0o2, 0o11, 0o21, 0o14)}),
                 ("all relay", {a: {"multicast_relay": True} for a in BASE}),
                 ("opt-outs", {0o2: {"allow_multicast": False}, 0o21: {"allow_multicast": False}, 0o1: {"multicast_relay": True}})]
     if not quick:
@@ -79,10 +79,21 @@ def build(chk):
 
 
 def run(chk):
-    chk.rule = ("sender classes (master, 0o1, other level-1, levels 2..4) x target level (default, 0..4) on an 11-node tree of "
+    chk.rule = ("sender classes (master, 0o1, other level-1, levels 2..4) x target level (default, 0..4) on a 13-node tree of "
                 "5 levels, node options: no relays / relays on levels 1-2 / all relay / allow_multicast off on some nodes "
                 "(thorough: + 6 seeded option mixes), message lengths {0,24,25} (thorough {0,1,24,25,49,144}), seeded jitter; "
                 "distinct = (options, sender, level, length) jobs")
+    # design-level account of the open finding (McastRelay.tla): a receiver that re-broadcasts each fragment before it reads
+    # the next one loses fragments for some timing combinations; without the relay it never does
+    rp = tlc.mc("McastRelay", "McastRelay_plain", timeout=300)
+    r2 = tlc.mc("McastRelay", "McastRelay_relay2", timeout=300)
+    rr = tlc.run("McastRelay", "McastRelay_relay", timeout=300)
+    chk.add_tlc(rp, "McastRelay, receiver does not relay: no fragment lost for any timing combination (6 fragments)")
+    chk.add_tlc(r2, "McastRelay, relaying level-1 receiver, 2 fragments: nothing lost")
+    if rr["ok"] or rr.get("violated") != "C14_NoFragmentLost":
+        raise tlc.TlcError("McastRelay (Relay = TRUE) no longer exhibits the lost fragment: the design account of the open C14 "
+                           "finding is out of date\n" + rr["stdout"][-1500:])
+    chk.extra["relay_loss_counterexample_from_design"] = len(rr.get("cex", []))
     chunks = build(chk)
     with ProcessPoolExecutor(16) as ex:
         traces = list(ex.map(run_chunk, chunks))
@@ -112,13 +123,25 @@ def run(chk):
             key = "%s:%s->L%s:%s" % (v["clause"], cls, c["level"] if c["level"] >= 0 else "default", re.sub(r"\d+", "N", v["detail"]))
             if c.get("hold"):
                 key += ":second-of-a-burst"
-            if v["clause"] == "C14.ExactlyLevel" and "did not receive" in v["detail"] and len(c["msg"]) > 48:
-                # cause class (key only): every level-L node that missed the message relays, i.e. was deaf while re-broadcasting
+            if v["clause"] == "C14.ExactlyLevel" and "did not receive" in v["detail"] and len(c["msg"]) > 24:
+                # cause class (key only): every level-L node that missed the message relays, heard the first fragment(s), and
+                # missed a later one while it was busy re-broadcasting (in TX mode, or its FIFO full while it slept before relaying)
                 L = c["lvl"] if c["level"] < 0 else min(4, c["level"])
                 got = {d["n"] for d in w["deqs"] if d["msg"] == c["msg"]}
                 missing = [nd for nd in t["nodes"] if nd["lvl"] == L and nd["allow_mc"] and nd["name"] != c["n"] and nd["name"] not in got]
-                if missing and all(nd["relay"] for nd in missing):
-                    key = "C14.ExactlyLevel:fragmented>=3:relaying-receiver-deaf-while-re-broadcasting"
+                mc = [p for p in w["pkts"] if len(p["data"]) >= 8 and p["data"][2] == 64 and p["data"][3] == 0]
+
+                def busy_relaying(nm):
+                    heard_from = {p["src"] for p in mc if any(x[0] == nm and x[2] == "new" for x in p["rx"])}
+                    for p in mc:
+                        if p["src"] in heard_from and not any(x[0] == nm and x[2] == "new" for x in p["rx"]):
+                            if any(x[0] == nm and x[2] == "full" for x in p["rx"]):
+                                return True
+                            if any(q["src"] == nm and abs(q["t"] - p["t"]) < 3000 for q in mc):
+                                return True
+                    return False
+                if missing and all(nd["relay"] and busy_relaying(nd["name"]) for nd in missing):
+                    key = "C14.ExactlyLevel:fragmented:relaying-receiver-busy-re-broadcasting"
             wit = dict(kind="mcast", meta={k: t["meta"][k] for k in ("addrs", "opts", "seed", "jitter")},
                        job=[oct(c["src"]), c["level"], c["type"], len(c["msg"])] + (["hold"] if c.get("hold") else []), ret=w["ret"], deq_nodes=[d["n"] for d in w["deqs"]])
             found.setdefault(key, []).append((wit, v))
